@@ -965,8 +965,12 @@ func (r *Raft) leaderLoop() {
 // verifyLeader must be called from the main thread for safety.
 // Causes the followers to attempt an immediate heartbeat.
 func (r *Raft) verifyLeader(v *verifyFuture) {
-	// Current leader always votes for self
-	v.votes = 1
+	// The leader votes for itself, provided it is a voter: a leader that is
+	// managing its own demotion or removal is not part of the voter quorum.
+	v.votes = 0
+	if hasVote(r.configurations.latest, r.localID) {
+		v.votes = 1
+	}
 
 	// Set the quorum size, hot-path for single node
 	v.quorumSize = r.quorumSize()
